@@ -1150,3 +1150,53 @@ func (e *Exec) closeOnly(ch Term) Term {
 	e.declareFun("sf.closeOnly", []Sort{SInt}, SBool)
 	return App(SBool, "sf.closeOnly", ch)
 }
+
+// foreignGlobalStore: a store into a package-level variable of another module
+// (or into the object such a variable points to, e.g. http.DefaultClient.Timeout)
+// is a write to process-wide state that no lock of this program guards - every
+// goroutine of the process, including the library's own, may read it.
+func (e *Exec) foreignGlobalStore(st *State, fr *Frame, x *ssa.Store) {
+	if !e.checkLocks || e.disc != nil {
+		return
+	}
+	g := foreignGlobalOf(x.Addr)
+	if g == nil {
+		return
+	}
+	path := g.Pkg.Pkg.Path()
+	what := e.eng.srcText(x.Pos())
+	e.oblige(st, "lockset", fmt.Sprintf("write:foreign-global:%s.%s:%s", path, g.Name(), what), False, x.Pos(), []string{"C18"},
+		fmt.Sprintf("write to process-wide state of another package (%s.%s) that no lock of this program guards", path, g.Name()))
+}
+
+// foreignGlobalOf: the package-level variable of another module that the
+// address is (or is reached through), or nil.
+func foreignGlobalOf(v ssa.Value) *ssa.Global {
+	var g *ssa.Global
+	for depth := 0; depth < 8 && g == nil; depth++ {
+		switch a := v.(type) {
+		case *ssa.Global:
+			g = a
+		case *ssa.FieldAddr:
+			v = a.X
+		case *ssa.IndexAddr:
+			v = a.X
+		case *ssa.UnOp:
+			if a.Op != token.MUL {
+				return nil
+			}
+			v = a.X
+		case *ssa.ChangeType:
+			v = a.X
+		default:
+			return nil
+		}
+	}
+	if g == nil || g.Pkg == nil || g.Pkg.Pkg == nil {
+		return nil
+	}
+	if strings.HasPrefix(g.Pkg.Pkg.Path(), "github.com/basecamp/kamal-proxy") {
+		return nil
+	}
+	return g
+}
